@@ -42,7 +42,7 @@ def nontrivial(case, obs):
 
 def load_corpus(prop):
     cases = []
-    for path in sorted(glob.glob(os.path.join(C.VERIF, "corpus", prop, "*.json"))):
+    for path in sorted(glob.glob(os.path.join(C.VERIF, "corpus", prop, "chk-*.json"))):
         with open(path) as fh:
             cases.append(json.load(fh)["case"])
     return cases
@@ -78,15 +78,26 @@ def model_observation(case):
     return " ".join(p.stdout.split())[:6000]
 
 
-def run(prop, tier, cone, props_file, specs, gen_cases, nquick, nthorough, rule, replay=None, design_note=""):
+def begin(prop, tier, cone, props_file):
+    """Regenerate + build, fill the proof part of the evidence. Returns (outcome, build, problems)."""
     out = C.Outcome(prop, tier)
-    rng = random.Random(C.seed() * 7919 + sum(map(ord, prop)))
     build = C.regenerate_and_build()
     problems = C.proof_section(out, build, cone, props_file)
+    return out, build, problems
+
+
+def run(prop, tier, cone, props_file, specs, gen_cases, nquick, nthorough, rule, replay=None, design_note=""):
+    out, build, problems = begin(prop, tier, cone, props_file)
+    run_into(out, build, problems, prop, tier, specs, gen_cases, nquick, nthorough, rule, replay, design_note)
+    return out.finish()
+
+
+def run_into(out, build, problems, prop, tier, specs, gen_cases, nquick, nthorough, rule, replay=None, design_note=""):
+    rng = random.Random(C.seed() * 7919 + sum(map(ord, prop)))
     if not build.ok_for(MODEL_FILES):
         out.violation("the executable model does not build: " + "; ".join(problems),
                       {"problems": problems, "log": build.log[-3000:]}, found_input=False)
-        return out.finish()
+        return
     if replay:
         with open(replay) as fh:
             cases = [json.load(fh)["case"]]
@@ -142,12 +153,13 @@ def run(prop, tier, cone, props_file, specs, gen_cases, nquick, nthorough, rule,
                                                                           for l in c["levels"]],
                         "invariants": len(c["invs"] or []), "events": [e[:3] for e in o["events"]],
                         "outcome": o["outcome"]})
-    out.coverage.update({
-        "evaluations": len(cases),
-        "distinct_nontrivial": len(distinct),
-        "rule": rule,
-        "samples": samples,
-        "traces_validated_against_impl": len(live),
+    cov = out.coverage
+    cov["evaluations"] = cov.get("evaluations", 0) + len(cases)
+    cov["distinct_nontrivial"] = cov.get("distinct_nontrivial", 0) + len(distinct)
+    cov["rule"] = (cov["rule"] + " || " if cov.get("rule") else "") + rule
+    cov.setdefault("samples", []).extend(samples)
+    cov["traces_validated_against_impl"] = cov.get("traces_validated_against_impl", 0) + len(live)
+    cov.update({
         "vm_compute_cases": len(live),
         "corpus_cases": ncorpus,
         "disagreements": len(disagreements),
@@ -155,6 +167,5 @@ def run(prop, tier, cone, props_file, specs, gen_cases, nquick, nthorough, rule,
         "distribution": dict(shapes.most_common(60)),
         "specs": specs,
     })
-    out.assumptions = ["user code is played from tables: conditions are functions of (id, store), deterministic",
-                       "object identity is a tag; kwargs order is not compared", design_note]
-    return out.finish()
+    out.assumptions += ["user code is played from tables: conditions are functions of (id, store), deterministic",
+                        "object identity is a tag; kwargs order is not compared"] + ([design_note] if design_note else [])
